@@ -252,6 +252,11 @@ class Func:
         self._pred = None
         self._defs = None
         self._uses = None
+        self._rplus = {}
+        for bi, b in enumerate(self.blocks):
+            b["t"]["_bb"] = bi
+            for si, st in enumerate(b["s"]):
+                st["_pos"] = (bi, si)
 
     def __repr__(self):
         return "<Func %s>" % self.key
@@ -497,6 +502,13 @@ class Func:
                     p2 = op_place(rv[1])
                     if p2:
                         out |= self._mutref_origins(p2[0], defs, seen)
+            elif d["kind"] == "call":
+                # `&mut` returned by a call (deref_mut, index_mut, iter_mut, as_mut ...) points
+                # into whatever its `&mut` arguments point into
+                for a in d["term"]["a"]:
+                    p2 = op_place(a)
+                    if p2:
+                        out |= self._mutref_origins(p2[0], defs, seen)
         return out
 
     def defs(self, l):
@@ -509,25 +521,52 @@ class Func:
             self._build_defuse()
         return self._uses.get(l, [])
 
-    def backward_slice(self, start_locals, stop_calls=()):
-        """Flow-insensitive backward slice from a set of locals.
+    INF = 1 << 30
+
+    def reach_plus(self, b):
+        """blocks reachable from b through at least one edge."""
+        r = self._rplus.get(b)
+        if r is None:
+            r = self.reach([t for t, _ in self.succ(b)])
+            self._rplus[b] = r
+        return r
+
+    def _def_reaches(self, d, pos):
+        if pos is None:
+            return True
+        b2, s2 = pos
+        dsi = d["si"] if d["si"] is not None else self.INF
+        if d["bb"] == b2 and dsi < s2:
+            return True
+        return b2 in self.reach_plus(d["bb"])
+
+    def backward_slice(self, start_locals, stop_calls=(), at=None):
+        """Backward slice from a set of locals as read at position `at` = (bb, stmt index)
+        (None = anywhere: flow-insensitive).  A definition is followed only if it can reach the
+        point where the value is read (so later mutations through `&mut` do not pollute earlier
+        reads); the sources of a definition are read at the definition's own position.
 
         Returns dict(locals=set, calls=set of bb, places=list of places read, consts=list,
-        args=set of argument locals reached, closures=set of closure def keys).
+        args=set of argument locals reached, closures=set of closure def keys, aggs=list).
         `stop_calls`: callee keys whose results are not traced further (treated as sources).
         """
         seen = set()
-        dq = deque(start_locals)
-        res = {"locals": seen, "calls": set(), "places": [], "consts": [], "args": set(),
+        locs = set()
+        dq = deque((l, at) for l in start_locals)
+        res = {"locals": locs, "calls": set(), "places": [], "consts": [], "args": set(),
                "closures": set(), "aggs": []}
         while dq:
-            l = dq.popleft()
-            if l in seen:
+            l, pos = dq.popleft()
+            if (l, pos) in seen:
                 continue
-            seen.add(l)
+            seen.add((l, pos))
+            locs.add(l)
             if 1 <= l <= self.argc:
                 res["args"].add(l)
             for d in self.defs(l):
+                if not self._def_reaches(d, pos):
+                    continue
+                dpos = (d["bb"], d["si"] if d["si"] is not None else self.INF)
                 if d["kind"] in ("call", "call-mut"):
                     res["calls"].add(d["bb"])
                     if is_call_to(d["term"], *stop_calls):
@@ -549,10 +588,10 @@ class Func:
                     else:
                         continue
                     res["places"].append(pl)
-                    dq.append(pl[0])
+                    dq.append((pl[0], dpos))
                     for e in pl[1:]:
                         if isinstance(e, str) and e.startswith("[_"):
-                            dq.append(int(e[2:-1]))
+                            dq.append((int(e[2:-1]), dpos))
         return res
 
     def copy_chain(self, l):
@@ -579,6 +618,15 @@ class Func:
                     dq.append(pl[0])
         return out
 
+    def operand_is_value_of_call(self, op, call_bb):
+        """operand is (a copy of) the payload of the call's result, through `?`/map_err carriers."""
+        t = self.term(call_bb)
+        if not t.get("dest"):
+            return False
+        carried = self.forward_locals([t["dest"][0]], through_calls=CARRIERS)
+        pl = op_place(op)
+        return bool(pl) and bool(self.copy_chain(pl[0]) & carried)
+
     def operand_is_copy_of(self, op, locals_):
         pl = op_place(op)
         if not pl or any(e != "*" for e in pl[1:]):
@@ -590,7 +638,8 @@ class Func:
         if pl is None:
             return {"locals": set(), "calls": set(), "places": [], "consts": [op_const(op)],
                     "args": set(), "closures": set(), "aggs": []}
-        r = self.backward_slice([pl[0]], **kw)
+        start = [pl[0]] + [int(e[2:-1]) for e in pl[1:] if isinstance(e, str) and e.startswith("[_")]
+        r = self.backward_slice(start, **kw)
         r["places"].append(pl)
         return r
 
